@@ -28,7 +28,7 @@ theorem NewLine_sem (f t : ℝ) (D : ℤ) (h : f ≠ t) (hc : Cfg (slope f t D) 
   -- the other (which of them is a parameter, which is recomputed) is not part of the statement
   unfold NewLine lineDoAt
   schedule_aux_unfold
-  simp only [h, h.symm, if_false]
+  try simp only [h, h.symm, if_false]      -- the `from == to` shortcut, if the source has one
   try simp only [f2i_cast_f2i]
   refine ⟨_, congrArg₂ (Sched.doAt D) ?_ rfl, ?_⟩
   · -- count and slope up to commutative-ring identities, or (the duration is not zero) field identities such as
@@ -62,17 +62,62 @@ theorem NewLine_sem (f t : ℝ) (D : ℤ) (h : f ≠ t) (hc : Cfg (slope f t D) 
        done)
 
 theorem ConstConfig_valid_iff (ops : ℝ) (D : ℤ) : ConstConfig_valid ops D ↔ (0 ≤ ops ∧ 1000000 ≤ D) := by
-  unfold ConstConfig_valid; constructor <;> (intro h; simpa using h)
+  unfold ConstConfig_valid; schedule_timeval_unfold; first | done | (constructor <;> (intro h; simpa using h))
 
 theorem LineConfig_valid_iff (f t : ℝ) (D : ℤ) : LineConfig_valid f t D ↔ (0 ≤ f ∧ 0 ≤ t ∧ 1000000 ≤ D) := by
-  unfold LineConfig_valid; constructor <;> (intro h; simpa using h)
+  unfold LineConfig_valid; schedule_timeval_unfold; first | done | (constructor <;> (intro h; simpa using h))
 
 theorem StepConfig_valid_iff (f t : ℝ) (s D : ℤ) :
     StepConfig_valid f t s D ↔ (0 ≤ f ∧ 0 ≤ t ∧ 1 ≤ s ∧ 1000000 ≤ D) := by
-  unfold StepConfig_valid; constructor <;> (intro h; simpa using h)
+  unfold StepConfig_valid; schedule_timeval_unfold; first | done | (constructor <;> (intro h; simpa using h))
 
 theorem OnceConfig_valid_iff (n : ℤ) : OnceConfig_valid n ↔ 1 ≤ n := by
-  unfold OnceConfig_valid; constructor <;> (intro h; simpa using h)
+  unfold OnceConfig_valid; schedule_timeval_unfold; first | done | (constructor <;> (intro h; simpa using h))
+
+theorem f2i_intCast (z : ℤ) : Go.f2i ((z : ℤ) : ℝ) = z := by
+  unfold Go.f2i
+  split_ifs
+  · exact Int.floor_intCast _
+  · exact Int.ceil_intCast _
+
+/-- a float64 number `v` given for an int64 option (`times`, `step`, a duration as a number of ns — JSON configs carry
+every number as a float64) passes the two REGENERATED decode hooks of core/config iff it is an integer of the int64
+range. Any spelling of "whole" (`v != math.Trunc(v)`, `math.Floor`, …) and of the range that means this passes. -/
+theorem float_for_int64_iff (v : ℝ) :
+    (¬ WholeNumberHook_rejects v ∧ NumberRangeHook_fits_float kindBits_Int64 v) ↔
+      ∃ z : ℤ, (z : ℝ) = v ∧ -(2:ℤ) ^ 63 ≤ z ∧ z < (2:ℤ) ^ 63 := by
+  unfold WholeNumberHook_rejects NumberRangeHook_fits_float kindBits_Int64
+  simp only [false_or, or_false, ne_eq, not_not, not_le, not_lt, ge_iff_le, gt_iff_lt, Nat.reduceSub]
+  constructor
+  · rintro ⟨hw, hr⟩
+    have hlo : -(2:ℝ) ^ 63 ≤ v := by first | exact hr.1 | exact hr.2
+    have hhi : v < (2:ℝ) ^ 63 := by first | exact hr.2 | exact hr.1
+    have key : ∀ z : ℤ, (z : ℝ) = v → ∃ z : ℤ, (z : ℝ) = v ∧ -(2:ℤ) ^ 63 ≤ z ∧ z < (2:ℤ) ^ 63 := by
+      intro z hz
+      refine ⟨z, hz, ?_, ?_⟩
+      · have : ((-(2:ℤ) ^ 63 : ℤ) : ℝ) ≤ ((z : ℤ) : ℝ) := by rw [hz]; push_cast; linarith
+        exact_mod_cast this
+      · have : ((z : ℤ) : ℝ) < (((2:ℤ) ^ 63 : ℤ) : ℝ) := by rw [hz]; push_cast; linarith
+        exact_mod_cast this
+    first
+    | exact key (Go.f2i v) hw.symm
+    | exact key (Go.f2i v) hw
+    | exact key ⌊v⌋ hw.symm
+    | exact key ⌊v⌋ hw
+  · rintro ⟨z, rfl, hlo, hhi⟩
+    have h1 : -(2:ℝ) ^ 63 ≤ ((z : ℤ) : ℝ) := by
+      have : ((-(2:ℤ) ^ 63 : ℤ) : ℝ) ≤ ((z : ℤ) : ℝ) := by exact_mod_cast hlo
+      push_cast at this; linarith
+    have h2 : ((z : ℤ) : ℝ) < (2:ℝ) ^ 63 := by
+      have : ((z : ℤ) : ℝ) < (((2:ℤ) ^ 63 : ℤ) : ℝ) := by exact_mod_cast hhi
+      push_cast at this; linarith
+    refine ⟨?_, ?_⟩
+    · first
+      | rw [f2i_intCast]
+      | rw [Int.floor_intCast]
+    · first
+      | exact ⟨h1, h2⟩
+      | exact ⟨h2, h1⟩
 
 /-- the leaf a constructor result denotes (`none` for a composite) -/
 def leaf? : Sched → Option DoAtSt
